@@ -167,6 +167,13 @@ pub fn exec_op(st: &mut RealState, op: &Op) -> Obs {
                     for j in 0..c2.len() + 2 { row.push(if i < size && j < size { tenths(m.get(i, j)) } else { "oob".to_string() }); }
                     rows.push(row.join(","));
                 }
+                // the same pair with the first word unfinished, on the second engine: same value, same cells, same dimension
+                let t1u = text_from_parts(c1, k1).fin(false);
+                let du = st.damlev_unfinished.distance(&t1u.view(0), &t2.view(0));
+                let mu = st.damlev_unfinished.dists.borrow();
+                let same = tenths(du) == tenths(d) && mu.verif_size() == size && mu.verif_raw_len() == m.verif_raw_len()
+                    && (0..c1.len() + 2).all(|i| (0..c2.len() + 2).all(|j| i >= size || j >= size || tenths(mu.get(i, j)) == tenths(m.get(i, j))));
+                if !same { return Obs::Line(format!("dist {} size={} rawlen={} but with the first word unfinished dist {} size={} rawlen={} (or cells differ)", tenths(d), size, m.verif_raw_len(), tenths(du), mu.verif_size(), mu.verif_raw_len())); }
                 Obs::Line(format!("dist {} size={} rawlen={} cells={}", tenths(d), size, m.verif_raw_len(), rows.join(";")))
             }
             Op::Wm { title, query, ri, qi, joinr, joinq } => {
